@@ -2,9 +2,9 @@
 # tools/seedall.sh: apply every kept seeded patch (3 rounds x 20 properties) to /repo in turn, run the property's own check,
 # revert; writes work/seedmatrix.txt (one line per patch).  A patch that no longer applies (the code it touched was
 # repaired since) is tried with its hand-ported variant patch_ported.diff if present.
-cd /verif; out=work/seedmatrix.txt; : > $out
+cd /verif; out=work/seedmatrix.txt; [ -n "${SEEDDIRS:-}" ] || : > $out
 git -C /repo diff --quiet || { echo "/repo dirty"; exit 2; }
-for d in seeded seeded2 seeded3; do
+for d in ${SEEDDIRS:-seeded seeded2 seeded3 seeded4}; do
   for i in $(seq -w 1 20); do
     ID=C$i; P=/verif/$d/$ID/patch.diff
     [ -f /verif/$d/$ID/patch_ported.diff ] && ! git -C /repo apply --check $P 2>/dev/null && P=/verif/$d/$ID/patch_ported.diff
